@@ -7,11 +7,14 @@ LEVEL = "model_checking"
 
 def run(ctx):
     q = ctx.quick
-    ctx.model_check("MC_Ops", "clock", constants=dict(O.BASE, Perturbs=("<-", "PertId"), MaxTicks=2 if q else 3, MaxLen=1 if q else 2),
+    ctx.model_check("MC_Ops", "clock", constants=dict(O.BASE, Perturbs=("<-", "PertId"), MaxTicks=2 if q else 3, MaxLen=1 if q else 2, IdErrStatuses="{0, 2, 5}"),
                     invariants=O.INV_C07, must_cover=["Tick", "Build", "AgentReply", "Decode"])
     if not q:
         ctx.model_check("MC_Ops", "selftest_second_read", constants=dict(O.BASE, Perturbs=("<-", "PertId"), MaxTicks=2, MaxLen=1, PinSecondRead=True),
                         invariants=O.INV_C07, expect=["Soundness", "Completeness"])
+        ctx.model_check("MC_Ops", "selftest_err_before_id", constants=dict(O.BASE, Perturbs=("<-", "PertId"), MaxTicks=1, MaxLen=1, PinErrBeforeId=True,
+                                                                           IdErrStatuses="{0, 2, 5}"),
+                        invariants=O.INV_C07, expect=["Rejects", "WalkEndSound"])
     rnd = random.Random(ctx.seed)
     S = []
     patterns = [list(p) for k in (1, 2, 3) for p in itertools.product([0, 1], repeat=k)] + [[86400], [1, 100000]]
@@ -26,7 +29,9 @@ def run(ctx):
                 for pat in (patterns if not q else rnd.sample(patterns, 5)):
                     oids = [[1, 1]] if op in O.SINGLE else [[1, 1], [1, 2]]
                     sc = dict(op=op, oids=oids, db=db, proto=proto, perturb=pert, ticks=pat, nr=0, mr=0,
-                              t0=rnd.choice([1000, 2 ** 31 - 5, 1700000000]))
+                              t0=rnd.choice([1000, 2 ** 31 - 5, 1700000000, 2 ** 31, 2 ** 31 + 9, 2 ** 32 + 3]))
+                    if pert.startswith("id_") and rnd.random() < 0.5:
+                        sc["es"], sc["ei"] = rnd.choice([2, 2, 5, 1, 17]), rnd.choice([0, 1])      # a foreign error response is still a foreign response
                     if pert == "wrong_comm":
                         sc["wrong_comm"] = rnd.choice(["private", "publi", "", "PUBLIC", "public ", "ublic", "p"])
                     if op == "bulkget":
@@ -39,6 +44,26 @@ def run(ctx):
         for kind in ("echo", "plus1", "minus1"):
             for pat in ([0], [1], [1, 0], [0, 1]):
                 S.append(dict(op="get", oids=[[1, 1]], db=db, proto=proto, disco=kind, ticks=pat, nr=0, mr=0))
+    # the agent is replaced between discovery and the request (unknownEngineID Report), then answers with a foreign / the right id
+    for proto in O.PROTOS[2:]:
+        for op in ("get", "getnext", "multiget", "set", "bulkget"):
+            for pert in ("none", "id_plus", "id_arb"):
+                oids = [[1, 1]] if op in O.SINGLE else [[1, 1], [1, 2]]
+                sc = dict(op=op, oids=oids, db=db, proto=proto, perturb=pert, ticks=[1], nr=0, mr=0, engine_change=True)
+                if op == "bulkget":
+                    sc["nr"], sc["mr"] = 1, 2
+                if op == "set":
+                    sc["setvals"] = O.setvals(rnd, oids)
+                S.append(sc)
+    # two operations in flight on one client, the clock advancing in between: each answer is checked against its own request
+    for proto in ["v2c", "v1", "v3n", "v3a_md5", "v3p_sha"]:
+        for opA, opB in itertools.product(["get", "getnext", "multiget"], repeat=2):
+            for pert in ("none", "swap"):
+                for dt in (1, 0, 1000):
+                    if pert == "swap" and dt == 0:
+                        continue            # equal ids: nothing to swap
+                    S.append(dict(op=opA, oids=[[1, 1]] if opA != "multiget" else [[1, 1], [1, 2]], opB=opB, oidsB=[[2, 1]] if opB != "multiget" else [[2, 1], [1, 2]],
+                                  db=db, proto=proto, perturb=pert, dt=dt, nr=0, mr=0, t0=rnd.choice([1000, 2 ** 31 - 1])))
     ctx.rule = ("every operation x v1/v2c/v3 levels x reply kind {echo, id+1, id-1, arbitrary id, id+-2^32, id+2^64, -id, other community (incl. prefixes / case variants), "
                 "other version} x clock patterns (increment per read in {0,1}^k, k<=3, and large jumps; start values incl. 2^31-5) applied reactively to "
                 "however many reads the code performs; the v3 discovery exchange with matching / mismatching msgID; every request inside walks "
@@ -54,6 +79,12 @@ def run(ctx):
             for pat in ([1], [0], [3]):
                 roots = [[1]] if api != "multiwalk" else [[1], [2]]
                 W.append(dict(db=[[1, 1, 1], [1, 1, 2], [1, 2, 1], [2, 1, 1], [3, 1, 1]], roots=roots, bulk=bulk, api=api, proto=proto, ticks=pat))
+            # an error response with a foreign request-id in the middle of the walk (noSuchName would pass for the end of the subtree)
+            for es in (2, 5):
+                for at in (1, 2):
+                    roots = [[1]] if api != "multiwalk" else [[1], [2]]
+                    W.append(dict(db=[[1, 1, 1], [1, 1, 2], [1, 2, 1], [2, 1, 1], [3, 1, 1]], roots=roots, bulk=1 if bulk else 0, api=api, proto=proto, ticks=[1],
+                                  err=dict(at=at, es=es, ei=1, iddelta=rnd.choice([1, -1, 77]))))
     O.drive_walks(ctx, W)
     ctx.assumptions = ["request-ids travel as plain integers (the clock's values); id mismatch combined with a non-zero error-status may surface as either exception"]
 
